@@ -51,13 +51,13 @@ type named struct {
 	OOD   bool // outside the property's domain
 }
 
-func sc(k string) TypeJ          { return TypeJ{K: k} }
-func nm(n string) TypeJ          { return TypeJ{K: "named", Name: n} }
-func ptrT(e TypeJ) TypeJ         { return TypeJ{K: "ptr", Elem: &e} }
-func sliceT(e TypeJ) TypeJ       { return TypeJ{K: "slice", Elem: &e} }
-func arrayT(n int, e TypeJ) TypeJ { return TypeJ{K: "array", N: n, Elem: &e} }
-func mapT(k, e TypeJ) TypeJ      { return TypeJ{K: "map", Key: &k, Elem: &e} }
-func structT(fs ...FieldJ) TypeJ { return TypeJ{K: "struct", Fields: fs} }
+func sc(k string) TypeJ            { return TypeJ{K: k} }
+func nm(n string) TypeJ            { return TypeJ{K: "named", Name: n} }
+func ptrT(e TypeJ) TypeJ           { return TypeJ{K: "ptr", Elem: &e} }
+func sliceT(e TypeJ) TypeJ         { return TypeJ{K: "slice", Elem: &e} }
+func arrayT(n int, e TypeJ) TypeJ  { return TypeJ{K: "array", N: n, Elem: &e} }
+func mapT(k, e TypeJ) TypeJ        { return TypeJ{K: "map", Key: &k, Elem: &e} }
+func structT(fs ...FieldJ) TypeJ   { return TypeJ{K: "struct", Fields: fs} }
 func fld(n string, t TypeJ) FieldJ { return FieldJ{Name: n, T: t} }
 
 var innerU = structT(fld("A", sc("int")), fld("B", sc("string")))
@@ -186,13 +186,13 @@ func floatOf(v *ValJ) float64 {
 func fval(f float64) ValJ {
 	return ValJ{F: fmt.Sprintf("0x%016x", math.Float64bits(f)), Q: strconv.FormatFloat(f, 'g', -1, 64)}
 }
-func ival(i int64) ValJ   { return ValJ{I: strconv.FormatInt(i, 10)} }
-func uval(u uint64) ValJ  { return ValJ{I: strconv.FormatUint(u, 10)} }
-func sval(s string) ValJ  { return ValJ{S: []byte(s), Q: strconv.Quote(s)} }
-func bval(b bool) ValJ    { return ValJ{B: b} }
-func pval(v ValJ) ValJ    { return ValJ{P: &v} }
+func ival(i int64) ValJ    { return ValJ{I: strconv.FormatInt(i, 10)} }
+func uval(u uint64) ValJ   { return ValJ{I: strconv.FormatUint(u, 10)} }
+func sval(s string) ValJ   { return ValJ{S: []byte(s), Q: strconv.Quote(s)} }
+func bval(b bool) ValJ     { return ValJ{B: b} }
+func pval(v ValJ) ValJ     { return ValJ{P: &v} }
 func lval(vs ...ValJ) ValJ { return ValJ{L: append([]ValJ{}, vs...)} }
-func nilval() ValJ        { return ValJ{Nil: true} }
+func nilval() ValJ         { return ValJ{Nil: true} }
 
 // build constructs the Go value described by (t, v).
 func build(t *TypeJ, v *ValJ) (out reflect.Value, err error) {
